@@ -10,4 +10,7 @@ for p in "$@"; do
   grep -E "^VIOLATION|^   lemma|^INCONCLUSIVE|^KNOWN" .build/seed-$p.log | cut -c1-260 | head -8
 done
 git -C /repo checkout -- .
+# the runs above rewrote evidence/<id>.json for a MUTATED tree: restore the committed evidence
+git -C "$(pwd)" checkout -- evidence/ 2>/dev/null
+rm -f replays/*.json
 git -C /repo status --short | grep -v snap.new
